@@ -133,20 +133,20 @@ type pointObs struct {
 }
 
 type callOut struct {
-	p        payload
-	variant  int
-	chain    string
-	vote     *types.Vote
-	prop     *types.Proposal
-	err      error
-	crashed  bool
-	crashAt  string
-	points   []pointObs
+	p         payload
+	variant   int
+	chain     string
+	vote      *types.Vote
+	prop      *types.Proposal
+	err       error
+	crashed   bool
+	crashAt   string
+	points    []pointObs
 	codePanic string // a panic raised by the code under test itself
-	inPlace  *mismatch
-	released *relItem // the item this call released (nil if none)
-	sig      crypto.Signature
-	ts       time.Time
+	inPlace   *mismatch
+	released  *relItem // the item this call released (nil if none)
+	sig       crypto.Signature
+	ts        time.Time
 }
 
 func (o *callOut) class() string {
